@@ -30,8 +30,8 @@ func c09Gen(r *driver.Rand, thorough bool) *driver.Plan {
 	p.Cap = driver.Pick(r, 0, 0, 1, 3)
 	p.Fn = r.Intn(60)
 	p.FnArg = r.Intn(n + 2)
-	if (stage == "fork.Map" || stage == "fork.FMap") && r.Chance(1, 3) {
-		p.Mode = "try"
+	if (stage == "fork.Map" || stage == "fork.FMap") && r.Chance(1, 2) {
+		p.Mode = driver.Pick(r, "try", "try", "lift")
 		for i := 0; i < n; i++ {
 			if r.Chance(1, 3) {
 				p.FailAt = append(p.FailAt, i)
@@ -85,13 +85,13 @@ func c09Enum(thorough bool) []*driver.Plan {
 				for _, pol := range basePolicies {
 					modes := []string{""}
 					if stage == "fork.Map" || stage == "fork.FMap" {
-						modes = append(modes, "try")
+						modes = append(modes, "try", "lift")
 					}
 					for _, mode := range modes {
 						p := c09Base(stage, par, n)
 						p.Policy, p.Budget = pol, 4000
-						if mode == "try" {
-							p.Mode = "try"
+						if mode != "" {
+							p.Mode = mode
 							if n > 1 {
 								p.FailAt = []int{1}
 							}
@@ -160,6 +160,9 @@ func c09Final(e *driver.Env) {
 	}
 	stage, _ := baseStage(p.Stage)
 	complete := !e.Cancelled.Load() && s.InputsClosed() && s.AllDrained()
+	if p.Mode == "lift" && len(p.FailAt) > 0 {
+		complete = false // fail-fast in a fork stage: only the upper-bound, closure and leak clauses apply
+	}
 	if complete {
 		if stage != "Void" {
 			for _, x := range in {
